@@ -21,7 +21,7 @@ VARIABLES tl,      \* position in the trace
 tvars == <<tl, tseed>>
 
 Formats == {"mpq", "ptch", "m2", "skin", "anim", "adt", "wmo", "blp", "dbc", "wdt", "wdl"}
-PlanArchs == Archetypes \cup {"prefix", "chunkedit", "havoc", "base"}
+PlanArchs == Archetypes \cup {"prefix", "chunkedit", "pair", "havoc", "base"}
 PeakLimitKiB(lenBytes) == 64 * ((lenBytes + 1023) \div 1024) + 262144
 
 WellFormed(e) == /\ e.outcome \in Vocabulary
@@ -29,12 +29,28 @@ WellFormed(e) == /\ e.outcome \in Vocabulary
                  /\ e.arch \in Archetypes => e.role \in Roles[e.arch]
                  /\ e.alloc >= 0 /\ e.peak >= 0 /\ e.len >= 0
 
+\* D-conjunct (harness conformance, DRIFT only): the value written into the field is the value the plan's
+\* boundary symbol denotes for this field (Conc of BoundedReader, re-computed here from the logged len, rem,
+\* orig, width and unit); a prefix input is a proper prefix whose length is what its class says.
+PlanValueOk(e) ==
+  CASE e.arch \in Archetypes /\ e.role # "tag" ->
+         e.cv = Mask4(Conc(e.val, e.slen, e.rem, e.orig, e.w, e.unit), e.w) /\ e.cv # e.orig /\ e.len = e.slen
+    [] e.arch = "prefix" ->
+         /\ e.len < e.slen /\ e.cv = L4(e.len)
+         /\ CASE e.val = "len-1" -> e.len = e.slen - 1 [] e.val = "len-2" -> e.len = e.slen - 2
+              [] e.val = "len-4" -> e.len = e.slen - 4 [] e.val = "half" -> e.len = e.slen \div 2
+              [] OTHER -> TRUE
+    [] e.arch = "base" -> e.len = e.slen
+    [] OTHER -> TRUE
+PlanValueNote(e) == IF PlanValueOk(e) THEN TRUE
+                    ELSE PrintT(<<"DRIFT", tl, "not the plan value">>)     \* keep TLC's rendering on one line
+
 OutcomeOk(e) == e.outcome \in TotalOutcomes
 AllocOk(e)   == e.alloc <= AllocLimitKiB(e.len) /\ e.peak <= PeakLimitKiB(e.len)
 
 \* the unmutated seed file must itself be accepted, otherwise the mutations stay shallow
 BaselineNote(e) == IF \A i \in 1..Len(e.baseline) : e.baseline[i][2] = "ok" THEN TRUE
-                   ELSE PrintT(<<"DRIFT", tl, "baseline of seed " \o e.format \o "/" \o e.seed \o " is not ok">>)
+                   ELSE PrintT(<<"DRIFT", tl, "seed baseline not ok">>)
 
 T_Reset == LET e == Rec[tl] IN
   /\ e.ev = "Reset"
@@ -46,6 +62,8 @@ T_Input == LET e == Rec[tl] IN
   /\ e.ev = "Input"
   /\ e.format = tseed.format /\ e.seed = tseed.seed        \* the event belongs to this trace
   /\ Assert(WellFormed(e), <<"malformed Input event", tl, e>>)
+  /\ e.slen = tseed.len
+  /\ PlanValueNote(e)
   /\ IF OutcomeOk(e)
        THEN IF AllocOk(e) THEN TRUE ELSE PrintT(<<"BAD", tl, "hugealloc">>)
        ELSE PrintT(<<"BAD", tl, e.outcome>>)
